@@ -267,3 +267,17 @@ def run(cx):
         ob.require(len(w) == 2 and not bad, "loser-cleanup/stable-id-guard",
                    "the handler of the connection that lost the tie-break can remove or orphan the surviving connection: " + "; ".join(v.msg for v in bad)[:300],
                    "anemo::network::connection_manager::ActivePeersInner::remove_with_stable_id")
+
+    with cx.ob("C05.7", "R-CALLERS", "once the pair is quiet nothing re-dials it: dials start only from the application's ConnectRequest and the periodic connectivity check (which skips connected / pending peers) - never from a connection ending") as ob:
+        MGR_ = "anemo::network::connection_manager::ConnectionManager"
+        for fn_, allowed_, n_ in ((f"{MGR_}::dial_peer", [f"{MGR_}::start", f"{MGR_}::handle_connectivity_check"], 2),
+                                  (f"{MGR_}::dial_peer_task", [f"{MGR_}::dial_peer"], 1)):
+            check_callers(ob, prog, fn_, allowed_, crates=["anemo"], exact=n_, what=fn_.split("::")[-1])
+        # the explicit site sits in the mailbox arm (ConnectRequest), not in a join arm
+        for c in prog.callers_of(f"{MGR_}::dial_peer", crates=["anemo"]):
+            if owner_path(prog, c.body) == f"{MGR_}::start":
+                o = Origins(c.body)
+                t = strip_identity(o.of_operand(c.args[1]))
+                ob.require(any(x[0] == "variant" and x[2] == "ConnectRequest" for x in walk(t)), "dial-source/explicit-is-connect-request",
+                           f"a dial in the manager loop is started with address {show(t)[:80]} (not the payload of a ConnectRequest)", c.body.path, c.body.loc(c.bb))
+
